@@ -416,6 +416,13 @@ var deathBanners = []*regexp.Regexp{
 	regexp.MustCompile(`(?m)^fatal error: sync: `),
 	regexp.MustCompile(`(?m)^fatal error: concurrent map `),
 	regexp.MustCompile(`(?m)^WARNING: DATA RACE`),
+	// memory-safety deaths (a library that reads or writes freed or foreign memory through unsafe): the harness itself uses no unsafe
+	regexp.MustCompile(`(?m)^fatal error: fault`),
+	regexp.MustCompile(`(?m)^fatal error: found bad pointer`),
+	regexp.MustCompile(`(?m)^fatal error: unexpected signal`),
+	regexp.MustCompile(`(?m)^unexpected fault address`),
+	regexp.MustCompile(`(?m)^runtime: pointer 0x[0-9a-f]+ to unallocated span`),
+	regexp.MustCompile(`(?m)^fatal error: checkptr: `),
 }
 var notViolationBanners = []*regexp.Regexp{
 	regexp.MustCompile(`(?m)^fatal error: runtime: out of memory`),
